@@ -363,7 +363,8 @@ def rule_sites(ctx):
         for b_ in sorts_:
             mk = lambda so, n: ("ctor", "Variable", (("name", ("param", n)), ("sort", ("ctor", "Sort::" + so, ()))))
             r_ = sym.Eval(fx, inline_depth=0).function(sb, [mk(a, "$n1"), mk(b_, "$n2")])
-            tab[("Sort::" + a, "Sort::" + b_)] = r_[1] if isinstance(r_, tuple) and r_[:1] == ("lit",) and isinstance(r_[1], bool) else repr(r_)[:60]
+            dv_ = sym.decide_bool(r_)
+            tab[("Sort::" + a, "Sort::" + b_)] = dv_ if dv_ is not None else repr(r_)[:60]
     ref = {("Sort::General", "Sort::General"): True, ("Sort::General", "Sort::Integer"): False, ("Sort::General", "Sort::Symbol"): False,
            ("Sort::Integer", "Sort::General"): True, ("Sort::Integer", "Sort::Integer"): True, ("Sort::Integer", "Sort::Symbol"): False,
            ("Sort::Symbol", "Sort::General"): True, ("Sort::Symbol", "Sort::Symbol"): True, ("Sort::Symbol", "Sort::Integer"): False}
